@@ -2,12 +2,14 @@ import Proofs.Small
 import Proofs.ForPrefixes
 import Proofs.LinkLists
 import Proofs.Windup
-/-! C08 — per-webentity link queries. Proved so far: every returned link comes from a page of the
-    webentity walk, carries the multiplicity of its target in that page's list, passes exactly the
-    switch test stated by the property (internal: target resolves to W; outbound: elsewhere or nowhere;
-    inbound: source does not resolve to W), each target once per page; cited/citing sets are sorted
-    duplicate-free sets of resolved ends; no switch at all is refused. The identification of
-    `windupWe` with longest-prefix resolution is under construction (Proofs/Shape*). -/
+import Proofs.WeLinks
+/-! C08 — per-webentity link queries, in full (Proofs/LinkInv, WeLinks): in every reachable state the answer of
+    `get_webentity_pagelinks` for any switch combination is exactly the page links whose source page belongs to W
+    and whose target passes the internal/outbound test, plus (inbound) those whose target belongs to W and
+    whose source does not, each with its multiplicity and each once (`C08_links`, `C08_switches`); the cited /
+    citing sets are exactly the resolutions of the other ends (`C08_links`, 4th clause). The other end is
+    resolved by winding its block up (`windupWe` = longest-prefix resolution, Proofs/Windup + LinkInv: parent
+    pointers are right and every stub target is a page in every reachable state). Per-page lemmas kept below. -/
 namespace Traph.Props
 open Traph State
 
@@ -60,5 +62,48 @@ theorem C08_cited_is_set (s : State) (ps : List Bytes) (out : Bool) (l : List Na
 theorem C08_end_resolution {s : State} {t : T} (h : Shape s t) (hp : ParOk s t 0) {p : LRU} {b : Nat}
     (hb : (p, b) ∈ t.entries s []) : s.windupWe b = (s.followLru p).2.we ∧ s.windup b = p.flatten :=
   ⟨windupWe_eq_followLru h hp hb, windup_eq h hp hb⟩
+
+/-! ### the requests themselves, in every reachable state (Proofs/LinkInv, WeLinks) -/
+
+/-- THE PROPERTY: for every reachable state, webentity `w` asked with a full prefix list and every switch combination: all switches off is refused with the library's own error; otherwise the answer is exactly the page links `(src, tgt, weight)` with `src` a page of `w` and `tgt` passing the internal/outbound test, or (inbound) `tgt` a page of `w` and `src` not resolving to `w`, weight = multiplicity in the page's list, each pair once; other ends are indexed pages; cited / citing sets are sorted duplicate-free and contain exactly the resolutions of the other ends (0 standing for none, `w` itself when it has internal links, as the library does); the degree triple is their sizes -/
+theorem C08_links (cfg : Config) (dflt : Rule) (rules : List (Bytes × Rule)) (ops : List Op)
+    (hrules : ∀ ar ∈ rules, lruIter ar.1 ≠ [])
+    (hop : ∀ op ∈ ops, ∀ d rs, op ≠ .clear d rs) (hwf : ∀ op ∈ ops, OpWf op)
+    (hok : NoKeyErr (State.fresh cfg dflt rules []).1 ops)
+    (s : State) (hs : s = (State.fresh cfg dflt rules []).1.run ops)
+    (w : Nat) (ps : List Bytes) (hf : FullPrefixList s w ps) :
+    (∀ incIn incInt incOut : Bool,
+      (incIn = false ∧ incInt = false ∧ incOut = false →
+        s.webentityPagelinks w ps incIn incInt incOut = .error .traph) ∧
+      ((incIn || incInt || incOut) = true →
+        ∃ l, s.webentityPagelinks w ps incIn incInt incOut = .ok l ∧
+          (∀ src tgt k, (src, tgt, k) ∈ l ↔
+            (OutLink s src tgt k ∧ s.retrieveWebentity src = .ok w ∧ SwitchOut s w incInt incOut tgt) ∨
+            (incIn = true ∧ InLink s src tgt k ∧ s.retrieveWebentity tgt = .ok w ∧
+              s.retrieveWebentity src ≠ .ok w)) ∧
+          ((ps.map lruIter).Nodup → (l.map wlEnds).Nodup))) ∧
+    (∀ src tgt k, OutLink s src tgt k → ∃ c, NodeOf s tgt c ∧ (s.cell c).flags.page = true) ∧
+    (∀ src tgt k, InLink s src tgt k → ∃ c, NodeOf s src c ∧ (s.cell c).flags.page = true) ∧
+    (∀ out : Bool, ∃ l, s.citedWebentities ps out = .ok l ∧ StrictAsc l ∧
+      ∀ x, x ∈ l ↔ ∃ own other k, s.retrieveWebentity own = .ok w ∧
+        ((out = true ∧ OutLink s own other k) ∨ (out = false ∧ InLink s other own k)) ∧ x = weOf s other) ∧
+    (∃ cited citing, s.citedWebentities ps true = .ok cited ∧ s.citedWebentities ps false = .ok citing ∧
+      s.webentityDegrees ps = .ok [citing.length, cited.length, citing.length + cited.length]) :=
+  Traph.C08_reachable cfg dflt rules ops hrules hop hwf hok s hs w ps hf
+
+/-- the three classes internal / outbound / inbound are pairwise disjoint and every switch combination returns the union of the classes asked for -/
+theorem C08_switches (cfg : Config) (dflt : Rule) (rules : List (Bytes × Rule)) (ops : List Op)
+    (hrules : ∀ ar ∈ rules, lruIter ar.1 ≠ [])
+    (hop : ∀ op ∈ ops, ∀ d rs, op ≠ .clear d rs) (hwf : ∀ op ∈ ops, OpWf op)
+    (hok : NoKeyErr (State.fresh cfg dflt rules []).1 ops)
+    (s : State) (hs : s = (State.fresh cfg dflt rules []).1.run ops)
+    (w : Nat) (ps : List Bytes) (hf : FullPrefixList s w ps) :
+    ∃ lInt lOut lIn, s.webentityPagelinks w ps false true false = .ok lInt ∧
+      s.webentityPagelinks w ps false false true = .ok lOut ∧
+      s.webentityPagelinks w ps true false false = .ok lIn ∧
+      (∀ x, x ∈ lInt → x ∉ lOut) ∧ (∀ x, x ∈ lInt → x ∉ lIn) ∧ (∀ x, x ∈ lOut → x ∉ lIn) ∧
+      ∀ (incIn incInt incOut : Bool) (l : List PageLink), s.webentityPagelinks w ps incIn incInt incOut = .ok l →
+        ∀ x, x ∈ l ↔ (incInt = true ∧ x ∈ lInt) ∨ (incOut = true ∧ x ∈ lOut) ∨ (incIn = true ∧ x ∈ lIn) :=
+  Traph.C08_switches_reachable cfg dflt rules ops hrules hop hwf hok s hs w ps hf
 
 end Traph.Props
